@@ -4,9 +4,13 @@
    1..3 inputs of kinds .c/.s/.o) x every single fault (k-th cc1/as/ld dies by exit status or
    by signal or cannot be started, missing input, input rejected by the parser / only by the
    code generator, an input the driver itself rejects (unknown extension) after earlier ones were
-   compiled, uncreatable -o path), one driver (with termination under fairness) and two drivers
+   compiled, an input that is a directory / cannot be opened, uncreatable -o path (no such
+   directory / -o names a directory), every option that takes an argument given last without it
+   or with a harmless argument in the separate-word form, an unreadable -include file), one driver (with termination under fairness) and two drivers
    interleaved in one directory; invariants P1..P5.
-   Sensitivity controls: the model without cleanup / with cleanup by explicit calls instead of an
+   P6: a command naming an unreadable input it consumes, or an option without its argument, does not exit 0.
+   Sensitivity controls: the model whose front end reads a directory as an empty file / that does not check
+   option arguments / without cleanup / with cleanup by explicit calls instead of an
    exit handler / without the wait-status check / with an unbuffered front end / with predictable
    temporary names / with the pinned tree's routing must each be rejected by TLC (else the
    invariants are vacuous -> exit 2).
@@ -28,6 +32,33 @@ MAXIN = 3
 OLD = b"OLD CONTENT\n"
 KINDS = ("c", "s", "o")
 STRACE = [shutil.which("strace") or "strace", "-f", "-s", "8192", "-e", "trace=execve,openat,open,creat,unlink,unlinkat,rename,renameat,renameat2,wait4,exit_group"]
+
+
+# Driver.tla ArgOpts (same order): the options of parse_args() that take an argument as a separate word, each with a
+# harmless argument ("val": the command must behave exactly as without the option).  AUX = a directory outside the
+# watched one holding an empty directory `inc` and an empty header `good.h`.
+ARGOPTS = ["-o", "-I", "-idirafter", "-include", "-x", "-MF", "-MT", "-Xlinker", "-D", "-U", "-MQ", "-L"]
+OPTVAL = {"-I": "AUX/inc", "-idirafter": "AUX/inc", "-include": "AUX/good.h", "-x": "none", "-MF": "AUX/dep.d", "-MT": "tgt", "-Xlinker": "--as-needed",
+          "-D": "X=1", "-U": "X", "-MQ": "tgt", "-L": "AUX/inc"}
+
+
+def make_aux(rundir):
+    aux = os.path.join(rundir, "aux")
+    os.makedirs(aux + "/inc", exist_ok=True)
+    open(aux + "/good.h", "w").close()
+    return aux
+
+
+def family(b):
+    """the fourth-round fault families, for the signature of a rejected run ('' for the older ones)"""
+    f, df = b["fault"], b["df"]
+    if f["t"] == "opt":
+        return "opt(%s)=%s:" % (ARGOPTS[f["k"] - 1], f["how"])
+    if f["t"] == "unwritable" and f["how"] == "isdir":
+        return "-o=dir:"
+    if df["t"] in ("isdir", "eloop"):
+        return "in.%s=%s:" % (b["ins"][df["i"] - 1], "dir" if df["t"] == "isdir" else "loop")
+    return ""
 
 
 def user_paths():
@@ -311,15 +342,24 @@ def beh_key(b):
     return "%s%s:%s:%s:%s%s:%s%s%s" % (b["mode"], "+o" if b["o"] else "", "".join(b["ins"]), b["pre"], df["t"], df["i"], f["t"], f["k"], f["how"])
 
 
-def argv_of(b, d=1):
+def argv_of(b, d=1, aux="AUX"):
     flag = {"E": ["-E"], "S": ["-S"], "c": ["-c"], "link": []}[b["mode"]]
-    opath = ("nodir/out%d" if b["fault"]["t"] == "unwritable" else "out%d") % d
+    f = b["fault"]
+    opath = ("nodir/out%d" if f["t"] == "unwritable" and f["how"] != "isdir" else "out%d") % d
+    pre, post = [], []
+    if f["t"] == "opt":
+        name = ARGOPTS[f["k"] - 1]
+        if f["how"] == "noarg":
+            post = [name]                       # the very last word of the command, without its argument
+        else:
+            val = {"val": OPTVAL.get(name), "missing": "AUX/nosuch.h", "isdir": "AUX/inc"}[f["how"]]
+            pre = [name, val.replace("AUX", aux)]
     files = []
     for i, k in enumerate(eff_kinds(b), 1):
         if k == "x" and (i + len(b["ins"]) + (b["pre"] == "old")) % 2:
             files += ["-x", "none"]            # changes nothing (FILE_NONE is the default): same rejection
         files.append("in%d.%s" % (i, k))
-    return flag + (["-o", opath] if b["o"] else []) + files
+    return flag + pre + (["-o", opath] if b["o"] else []) + files + post
 
 
 def populate(inputs, b, cwd, outs=("out1",)):     # outs: -o paths whose directory exists
@@ -330,6 +370,12 @@ def populate(inputs, b, cwd, outs=("out1",)):     # outs: -o paths whose directo
         n = "in%d.%s" % (i, k)
         names.add(n)
         if b["df"]["i"] == i and b["df"]["t"] == "missing":
+            continue
+        if b["df"]["i"] == i and b["df"]["t"] == "isdir":          # the name exists, but it is a directory
+            os.mkdir(os.path.join(cwd, n))
+            continue
+        if b["df"]["i"] == i and b["df"]["t"] == "eloop":          # the name exists, but cannot be opened (root can read every file)
+            os.symlink(n, os.path.join(cwd, n))
             continue
         bad = b["df"]["t"] if b["df"]["i"] == i and b["df"]["t"] in ("bad", "badgen") else False
         data = inputs.content(i, k, b["mode"], bad)
@@ -368,7 +414,9 @@ def run_driver(ctx, tree, shim, b, rundir, cwd, d=1, popen=False):
     env.pop("CHIBICC_VERIF_TRACE", None)
     env["C14_FAULT"] = "%s:%d:%s" % (f["t"], f["k"], f["how"]) if f["t"] in ("cc1", "as", "ld") else ""
     st = os.path.join(rundir, "strace%d.txt" % d)
-    cmd = STRACE + ["-o", st, shimdir + "/chibicc"] + argv_of(b, d)
+    if f["t"] == "unwritable" and f["how"] == "isdir":
+        os.makedirs(os.path.join(cwd, "out%d" % d), exist_ok=True)      # -o names an existing directory
+    cmd = STRACE + ["-o", st, shimdir + "/chibicc"] + argv_of(b, d, make_aux(rundir) if f["t"] == "opt" else "AUX")
     so = open(os.path.join(rundir, "stdout%d" % d), "wb")
     se = open(os.path.join(rundir, "stderr%d" % d), "wb")
     p = subprocess.Popen(cmd, cwd=cwd, env=env, stdin=subprocess.DEVNULL, stdout=so, stderr=se)
@@ -390,9 +438,15 @@ def listing(cwd, orig, tmpmap, made=()):
         tmpmap.setdefault(raw, "stray-tmp")
     out = []
     for root, dirs, files in os.walk(cwd):
+        for fn in dirs:
+            out.append(dict(p=os.path.relpath(os.path.join(root, fn), cwd), c="dir"))
         for fn in files:
             rel = os.path.relpath(os.path.join(root, fn), cwd)
-            data = open(os.path.join(root, fn), "rb").read()
+            try:
+                data = open(os.path.join(root, fn), "rb").read()
+            except OSError:
+                out.append(dict(p=rel, c="loop"))               # a symbolic link to itself
+                continue
             out.append(dict(p=rel, c=classify(data, orig.get(rel))))
     for raw, n in tmpmap.items():
         try:                               # (a broken driver may share these names between concurrent runs)
@@ -483,7 +537,7 @@ def ev_summary(mode, ev, before=()):
         return "drvopen:" + ("tmp-without-O_EXCL" if ev["p"].startswith("foreign:/tmp/chibicc-") else cls(ev["p"]))
     if k == "final":
         return "final:" + ",".join("%s=%s" % (r["p"] if not re.fullmatch(r"t\d+", r["p"]) else "tmp", r["c"]) for r in ev["fs"]
-                                   if r["c"] not in ("src", "bad", "badgen", "old"))
+                                   if r["c"] not in ("src", "bad", "badgen", "old", "dir", "loop"))
     return k
 
 
@@ -516,7 +570,7 @@ def validate_runs(ctx, results, label, chunk=120, rerun=None):
         rejs = [((b, again[k][1]), still[k], ri) for k, ((b, r), ev, ri) in enumerate(rejs) if k in still]
     for (b, r), ev, ri in rejs:
         pos = [j for j, x in enumerate(r["events"]) if x is ev]
-        sig = "trace:%s%s:%s" % (b["mode"], "+o" if b["o"] else "", ev_summary(b["mode"], ev, r["events"][:pos[0]] if pos else ()))
+        sig = "trace:%s%s:%s%s" % (b["mode"], "+o" if b["o"] else "", family(b), ev_summary(b["mode"], ev, r["events"][:pos[0]] if pos else ()))
         ctx.report(sig, "chibicc %s (inputs %s, fault %s/%s): recorded run is not a behaviour of Driver.tla at event %s; model expects calls %s, exit %s" % (
             " ".join(r["argv"]), b["ins"], b["fault"], b["df"], ev, [(x["tool"], x["status"]) for x in b["log"]], b["code"]),
             case=dict(kind="run", beh=b, rejected_event=ev, events=r["events"]))
@@ -572,17 +626,17 @@ def expected_two(b1, b2):
     for p in [x for x in user_paths() if x != "out1"] + ["out1", "out2"]:
         if p in names:
             i = int(p[2])
-            init[p] = ("absent" if b1["df"]["t"] == "missing" else b1["df"]["t"]) if b1["df"]["i"] == i and b1["df"]["t"] != "unkext" else "src"
+            init[p] = {"missing": "absent", "isdir": "dir", "eloop": "loop"}.get(b1["df"]["t"], b1["df"]["t"]) if b1["df"]["i"] == i and b1["df"]["t"] != "unkext" else "src"
         else:
             init[p] = b1["pre"]
     exp = {}
     for p in init:
         a = f1.get(p, "absent") if p != "out2" else init[p]
         c = f2.get(p, "absent") if p != "out1" else init[p]
-        cl = lambda t: t if t in ("absent", "src", "bad", "badgen", "old") else t[0]
+        cl = lambda t: t if t in ("absent", "src", "bad", "badgen", "old", "dir", "loop") else t[0]
         a, c = cl(a), cl(c)
         if p == "out1" and b1["fault"]["t"] == "unwritable" or p == "out2" and b2["fault"]["t"] == "unwritable":
-            exp[p] = {"absent"}
+            exp[p] = {"dir" if (b1 if p == "out1" else b2)["fault"]["how"] == "isdir" else "absent"}
         elif a == init[p]:
             exp[p] = {c}
         elif c == init[p]:
@@ -633,6 +687,8 @@ def make_pairs(beh, seed, n):
     """pairs of behaviours in the same directory; at most one fault in total (as in the model)"""
     groups = {}
     for b in beh:
+        if b["fault"]["t"] == "opt":
+            continue                 # (an option fault adds nothing to two concurrent drivers: the model has them for one driver only)
         # same directory = same files with the same contents (under -E every input holds C text)
         groups.setdefault((tuple(b["ins"]), b["pre"], b["df"]["t"], b["df"]["i"], b["mode"] == "E"), []).append(b)
     pairs = []
@@ -648,7 +704,8 @@ def make_pairs(beh, seed, n):
 
 # -------------------------------------------------------------------- run
 CONTROLS = [("DoCleanup", False, "P1", 1), ("CheckWait", False, "P2", 1), ("Buffered", False, "P3", 1),
-            ("Pinned", True, "P4", 1), ("ExclTmp", False, "P5", 2), ("AtExit", False, "P1", 1)]
+            ("Pinned", True, "P4", 1), ("ExclTmp", False, "P5", 2), ("AtExit", False, "P1", 1),
+            ("DirIsEmpty", True, "P6", 1), ("ArgCheck", False, "P6", 1)]
 
 
 def model_check2(ctx, errors):
@@ -674,6 +731,10 @@ def controls(ctx, errors):
             raise Infra("sensitivity control failed: model with %s=%s should violate %s, TLC says %s" % (name, val, inv, r.violated))
         if name == "AtExit" and '"unkext"' not in r.trace_text():
             raise Infra("sensitivity control failed: cleanup by explicit calls must be rejected through a driver-level error()")
+        if name == "DirIsEmpty" and '"dir"' not in r.trace_text():
+            raise Infra("sensitivity control failed: a front end that reads a directory as an empty file must be rejected through a directory input")
+        if name == "ArgCheck" and '"noarg"' not in r.trace_text():
+            raise Infra("sensitivity control failed: a driver that does not check option arguments must be rejected through an option without its argument")
         if name == "Buffered" and '"badgen"' not in r.trace_text():
             raise Infra("sensitivity control failed: the unbuffered front end must be rejected through an input that fails in codegen()")
     def live(t):
@@ -705,6 +766,9 @@ def stratified(beh, seed, stride):
         return list(beh)
     strata = {}
     for b in beh:
+        if b["fault"]["t"] == "opt":          # every option of the table, in each of its forms, whatever the mode
+            strata.setdefault(("opt", b["fault"]["k"], b["fault"]["how"]), []).append(b)
+            continue
         strata.setdefault((b["mode"], b["o"], b["df"]["t"], b["fault"]["t"], b["fault"]["how"], b["ntmp"] > 0), []).append(b)
     out = []
     for k in sorted(strata, key=str):
@@ -760,12 +824,12 @@ def run(ctx):
     ctx.assumptions += [
         "children are modelled from the observed behaviour of GNU as/ld (output unlinked+created first, removed on error) and of chibicc -cc1 (output opened once, at the end); each recorded run re-validates this",
         "mkstemp never hands out the same name twice (fresh-name abstraction of the random suffix + O_EXCL)",
-        "the tests run as root: an unreadable input is a missing file; an unwritable output is -o into a directory that does not exist",
+        "the tests run as root: an unreadable input is a missing file, a directory or a symbolic link to itself; an unwritable output is -o into a directory that does not exist or -o naming a directory",
         "death of the driver process itself (signal to the driver) is outside the property: atexit handlers do not run then",
         "-E treats every input as C source (opt_x = FILE_C): modelled as the driver's documented behaviour",
         "two real drivers are run concurrently without forcing a schedule; all interleavings are covered by TLC on the model only"]
     return ctx.finish(
-        rule="case = one terminated behaviour of Driver.tla with one driver = (mode, -o, input kinds, initial outputs old/absent, single fault), executed with the real driver under strace and validated by TLC against DriverTrace.tla; pairs = two such commands run concurrently in one directory; non-trivial = a fault is injected or more than one input",
+        rule="case = one terminated behaviour of Driver.tla with one driver = (mode, -o, input kinds, initial outputs old/absent, single fault: tool / input kind / -o / option table), executed with the real driver under strace and validated by TLC against DriverTrace.tla; pairs = two such commands run concurrently in one directory; non-trivial = a fault is injected or more than one input",
         exhaustive=not q,
         extra=dict(behaviours_in_model=len(beh), behaviours_replayed=len(todo), concurrent_pairs=len(pairs)))
 
